@@ -193,6 +193,9 @@ class Model():
 
         if not hasattr(asset, 'name'):
             asset.name = asset.type + ':' + str(asset.id)
+            while asset.name in self.asset_names:
+                # The generated name can be taken as well
+                asset.name = asset.name + ':' + str(asset.id)
         else:
             if asset.name in self.asset_names:
                 if allow_duplicate_names:
